@@ -232,6 +232,18 @@ Theorem c08_fallback_long_outage : forall c evs w l now n,
 Proof. exact long_outage_recovers. Qed.
 Print Assumptions c08_fallback_long_outage.
 
+(* A failure that arrives LATE -- its request entered while the limiter was alive, and startMonitor runs in
+   whatever state the limiter has reached meanwhile, in particular between the monitor's `alive = 1` and
+   its `monitorStarted = false` (MExiting) -- preserves the switch invariant: afterwards the limiter is
+   alive or its monitor is in the ping loop, never "on the rescue path with nobody pinging". *)
+Theorem c08_fallback_late_failure : forall l, linv l ->
+  linv (start_monitor l) /\ (alive (start_monitor l) = true \/ monitor (start_monitor l) = MRunning).
+Proof.
+  intros l I. pose proof (start_monitor_linv l I) as I'. split; [exact I'|].
+  destruct (alive (start_monitor l)) eqn:A; [left; reflexivity|right; apply I'; exact A].
+Qed.
+Print Assumptions c08_fallback_late_failure.
+
 (* the in-process limiter (x/time/rate, as modelled) is the Spec bucket at ms resolution with the
    same rate and burst: same decisions on every monotone request sequence *)
 Theorem c08_rescue_is_bucket : forall rate burst t0 reqs, 1 <= rate -> 1 <= burst ->
